@@ -332,6 +332,10 @@ func (cs *Contracts) parseFile(path string) error {
 			}
 			when, r2 := splitWord(rest)
 			kw, r3 := splitWord(r2)
+			if strings.HasPrefix(kw, "return#") {
+				r3 = r2
+				kw = "call"
+			}
 			if (when != "before" && when != "after") || kw != "call" {
 				return fmt.Errorf("%s: expected `%s before|after call f#k: expr`", where, word)
 			}
